@@ -261,6 +261,129 @@ def mode_only(res, infos):
     return groups
 
 
+
+# ---- engine 3: every way of handing over a variable is a USE of it ------------------------------------------------------------
+# "once a variable is used the sequence is parametrized": the variable may sit anywhere the API takes a value or a collection of
+# values.  Roots x calls x containers; the verdict and the mode after the call must not depend on the container's type.
+VU_CONTAINERS = ("bare", "list", "tuple", "set", "frozenset", "keys", "dict", "values", "deque", "ndarray", "list-in-kwarg")
+VU_CALLS = ("target_index:l", "target_index:l2", "phase_shift_index:digital", "delay:g", "delay:l")
+VU_ROOTS = {
+    "concrete": [("declare", "g", "rydberg_global"), ("declare", "l", "raman_local"), ("declare", "l2", "raman_local", "q0"), ("declare_var", "x")],
+    "concrete-after-ops": [("declare", "g", "rydberg_global"), ("declare", "l", "raman_local"), ("declare", "l2", "raman_local", "q0"),
+                           ("target", "q0", "l"), ("add", C52, "l"), ("declare_var", "x")],
+    "already-parametrized": [("declare", "g", "rydberg_global"), ("declare", "l", "raman_local"), ("declare", "l2", "raman_local", "q0"),
+                             ("declare_var", "x"), ("declare_var", "y"), ("delay_v", "y", "g")],
+}
+
+
+def _vu_wrap(v, kind):
+    import collections
+
+    import numpy as np
+
+    if kind in ("bare", "list-in-kwarg"):
+        return v if kind == "bare" else [v]
+    if kind == "list":
+        return [v]
+    if kind == "tuple":
+        return (v,)
+    if kind == "set":
+        return {v}
+    if kind == "frozenset":
+        return frozenset([v])
+    if kind == "keys":
+        return {v: None}.keys()
+    if kind == "dict":
+        return {v: None}
+    if kind == "values":
+        return {"a": v}.values()
+    if kind == "deque":
+        return collections.deque([v])
+    if kind == "ndarray":
+        a = np.empty(1, dtype=object)
+        a[0] = v
+        return a
+    raise ValueError(kind)
+
+
+def vu_cases():
+    return [(r, c, k) for r in VU_ROOTS for c in VU_CALLS for k in VU_CONTAINERS
+            if not (c.startswith("delay") and k != "bare")]
+
+
+def vu_worker(case):
+    root, call, kind = case
+    w = World(corner("unit8", name="vu-" + root, reusable=True, qubits=2, prefix=VU_ROOTS[root]))
+    out = []
+    with warnings.catch_warnings():
+        warnings.simplefilter("ignore")
+        seq = w.fresh()
+        v = seq.declared_variables["x"][0]
+        was_param = seq.is_parametrized()
+        n_calls = len(seq._to_build_calls)
+        arg = _vu_wrap(v, kind)
+        meth, where = call.split(":")
+        try:
+            if meth == "target_index":
+                if kind == "list-in-kwarg":
+                    seq.target_index(qubits=arg, channel=where)
+                else:
+                    seq.target_index(arg, where)
+            elif meth == "phase_shift_index":
+                if kind == "bare":
+                    seq.phase_shift_index(1.0, v, basis=where)
+                elif kind == "list-in-kwarg":
+                    seq.phase_shift_index(phi=1.0, basis=where)  # no variable at all: the control of this column
+                    arg = None
+                else:
+                    # phase_shift_index takes its targets one by one: the collection is unpacked by the caller
+                    seq.phase_shift_index(1.0, *list(arg), basis=where)
+            else:
+                seq.delay(v, where)
+            err = None
+        except Exception as e:  # noqa: BLE001
+            err = f"{type(e).__name__}: {e}"
+    uses_var = arg is not None
+    tag = f"{call}:{kind}"
+    if err is not None:
+        out.append((f"C13:variable-use-refused:{tag}", f"root {root}: a call carrying a declared variable inside a {kind} was refused: {err[:160]}"))
+        if seq.is_parametrized() != was_param:
+            out.append((f"C13:variable-use-refused-changed-mode:{tag}", f"root {root}: refused, yet is_parametrized() went {was_param} -> {seq.is_parametrized()}"))
+        return out
+    if uses_var and not seq.is_parametrized():
+        out.append((f"C13:variable-use-not-parametrized:{tag}", f"root {root}: a declared variable was handed over inside a {kind} and accepted, "
+                    "but the sequence is not parametrized"))
+    if uses_var and len(seq._to_build_calls) != n_calls + 1:
+        out.append((f"C13:variable-use-not-stored:{tag}", f"root {root}: the call is not in the stored calls ({n_calls} -> {len(seq._to_build_calls)})"))
+    if uses_var:
+        try:
+            seq.get_duration()
+            out.append((f"C13:inspection-accepted-after-variable-use:{tag}", f"root {root}: get_duration() answered after a variable was used"))
+        except RuntimeError:
+            pass
+        except Exception as e:  # noqa: BLE001
+            out.append((f"C13:inspection-error-after-variable-use:{tag}", f"root {root}: get_duration() raised {type(e).__name__}: {e}"))
+    if not uses_var and seq.is_parametrized() != was_param:
+        out.append((f"C13:parametrized-without-variable:{tag}", f"root {root}: no variable in the call, is_parametrized() went {was_param} -> True"))
+    return out or [("@variable-use:" + ("accepted-parametrized" if uses_var else "control"), "")]
+
+
+def variable_use_grid(res):
+    from mc import gridx
+
+    cases = vu_cases()
+    outs = gridx.run(vu_worker, cases)
+    classes = {}
+    for c, r in zip(cases, outs):
+        for fp, d in r:
+            if fp.startswith("@"):
+                classes[fp] = classes.get(fp, 0) + 1
+            else:
+                res.add(Violation(fp, d, {"engine": "variable-use", "case": list(c)}))
+    res.activations["variable_use_cases"] = len(cases)
+    return dict(cases=len(cases), outcome_classes=classes, roots=list(VU_ROOTS), calls=list(VU_CALLS), containers=list(VU_CONTAINERS))
+
+
 def worlds(tier):
     base = [("declare_stub",)]
     ws = [
@@ -295,6 +418,7 @@ def run(tier, seed):
     cov["concrete_states"] = cov["states"]
     cov["concrete_transitions"] = cov["transitions"]
     cov["abstract_modes_seen_concretely"] = mode_only(res, infos)
+    cov["variable_use_grid"] = variable_use_grid(res)
     # engine 2
     tot = dict(states=0, transitions=0, validated=0)
     cov["abstract"] = []
@@ -311,7 +435,7 @@ def run(tier, seed):
                    "replayed on the real Sequence through a witness history; engine 1: concrete BFS to depth %d with the model folded "
                    "over every history and a mode-only consistency check" % (MAX_DMM, depth))
     res.coverage = cov
-    res.required_activations = ["model_compared", "observers_checked"]
+    res.required_activations = ["model_compared", "observers_checked", "variable_use_cases"]
     res.assumptions = ["all arguments are value-valid so that only the mode can cause a refusal",
                        "the model leaves data-dependent cases undecided (align with a never-targeted local channel, deferred "
                        "parametrized calls, non-timeline calls after measurement)"]
@@ -320,6 +444,8 @@ def run(tier, seed):
 
 def replay(payload):
     eng = payload.get("engine")
+    if eng == "variable-use":
+        return [Violation(fp, d, payload) for fp, d in vu_worker(tuple(payload["case"])) if not fp.startswith("@")]
     if eng == "witness":
         w = World(payload["world"])
         _W[w.name] = w
